@@ -94,8 +94,11 @@ func decToMinDec(dec float64, latitude bool) string {
 		sign = ' '
 	}
 
-	deg := int(dec)
-	min := (dec - float64(deg)) * 60.0
+	// Round to the printed resolution (1/10000 minute) before splitting into
+	// degrees and minutes, so that the minutes never print as 60.0000.
+	total := math.Round(math.Abs(dec) * 600000)
+	deg := math.Floor(total / 600000)
+	min := (total - deg*600000) / 10000
 
 	var format string
 	if latitude {
@@ -104,5 +107,5 @@ func decToMinDec(dec float64, latitude bool) string {
 		format = "%03.0f-%07.4f%c"
 	}
 
-	return fmt.Sprintf(format, math.Abs(float64(deg)), math.Abs(min), sign)
+	return fmt.Sprintf(format, deg, min, sign)
 }
